@@ -104,20 +104,61 @@ impl World {
         }
     }
 
-    /// The `.pyxis` files of the world, sorted by path (the order `glob` discovers them in is
-    /// deterministic given the names, see DESIGN.md N5).
-    pub fn module_files(&self) -> Vec<(&str, &Blob)> {
-        let mut v: Vec<(&str, &Blob)> = self
+    /// The modules of the world: its `.pyxis` files plus whatever symbolic links inside the
+    /// input tree make reachable under another path (a link to a file, or to a directory whose
+    /// files then also exist below the link). Sorted by path, which is the order `glob`
+    /// discovers them in (DESIGN.md N5).
+    pub fn module_files(&self) -> Vec<(String, &Blob)> {
+        let files: Vec<(&str, &Blob)> = self
             .input
             .iter()
             .filter_map(|n| match n {
-                Node::File { path, content } if path.ends_with(".pyxis") => {
-                    Some((path.as_str(), content))
-                }
+                Node::File { path, content } => Some((path.as_str(), content)),
                 _ => None,
             })
             .collect();
+        let mut v: Vec<(String, &Blob)> = files
+            .iter()
+            .filter(|(p, _)| p.ends_with(".pyxis"))
+            .map(|(p, b)| (p.to_string(), *b))
+            .collect();
+        for n in &self.input {
+            let Node::Symlink { path, target } = n else {
+                continue;
+            };
+            // Resolve the target relative to the directory of the link, inside the tree only.
+            let mut parts: Vec<&str> = path.split('/').collect();
+            parts.pop();
+            let mut escaped = target.starts_with('/');
+            for c in target.split('/') {
+                match c {
+                    "" | "." => {}
+                    ".." => {
+                        if parts.pop().is_none() {
+                            escaped = true;
+                        }
+                    }
+                    c => parts.push(c),
+                }
+            }
+            if escaped {
+                continue;
+            }
+            let resolved = parts.join("/");
+            for (p, b) in &files {
+                if *p == resolved {
+                    if path.ends_with(".pyxis") {
+                        v.push((path.clone(), *b));
+                    }
+                } else if let Some(rest) = p.strip_prefix(&format!("{resolved}/")) {
+                    if p.ends_with(".pyxis") && !resolved.is_empty() {
+                        v.push((format!("{path}/{rest}"), *b));
+                    }
+                }
+            }
+        }
         v.sort();
+        v.dedup_by(|a, b| a.0 == b.0);
         v
     }
 
